@@ -206,7 +206,7 @@ func (s *grpcServer) fetchItem(ctx context.Context, uri string, headers http.Hea
 		return "", int64(-1), fmt.Errorf("unknown URL scheme: %q", u.Scheme)
 	}
 
-	req, err := http.NewRequest(http.MethodGet, uri, nil)
+	req, err := http.NewRequestWithContext(ctx, http.MethodGet, uri, nil)
 	if err != nil {
 		s.errorLogger.Printf("failed to create http.Request: %s err: %v", uri, err)
 		return "", int64(-1), err
